@@ -169,20 +169,97 @@ def write_if_changed(path, content):
     return True
 
 
+def parse_dump(path):
+    """output of `tm-harness tables`: the real functions evaluated on their whole domain"""
+    keys, chars, rows = [], [], {}
+    ok = False
+    for line in open(path, encoding="utf-8"):
+        t = line.split()
+        if not t:
+            continue
+        if t[0] == "KEY" and len(t) == 6:
+            keys.append((t[2], int(t[1]), t[3], t[4] == "true", t[5] == "true"))
+        elif t[0] == "CHAR" and len(t) == 4:
+            chars.append((int(t[1]), t[2] == "true", int(t[3])))
+        elif t[0] == "ROW":
+            rows[t[1]] = [int(x) for x in t[2:]]
+        elif t[0] == "END":
+            ok = True
+    if not ok or len(keys) < 100:
+        raise TranslateError("table dump incomplete")
+    return keys, chars, rows
+
+
 def main():
-    entries = parse_keycodes()
+    dump = None
+    if "--dump" in sys.argv:
+        dp = sys.argv[sys.argv.index("--dump") + 1]
+        if os.path.exists(dp):
+            dump = parse_dump(dp)
+    notes = []
+
+    def from_text(what, f):
+        try:
+            return f()
+        except TranslateError as e:
+            if dump is None:
+                raise
+            notes.append("%s: source text not understood (%s); using the evaluated function" % (what, e))
+            return None
+
+    entries = from_text("key codes", parse_keycodes)
+    if dump is not None:
+        d_entries = [(i, n, sname) for i, n, sname, _, _ in dump[0]]
+        if entries is None or sorted(entries) != sorted(d_entries):
+            if entries is not None:
+                notes.append("key codes: source text and evaluated table differ; using the evaluated table")
+            entries = d_entries
     codes = {}
     for ident, num, _ in entries:
         codes[ident] = num
+    names = {n: i for i, n in codes.items()}
     kt_src = read("src/key_transforms.rs")
     fl_src = read("src/fancy_layout_interpreting.rs")
-    act_listed, act_default = parse_bool_match(kt_src, "is_action_key", True)
-    mod_listed, mod_default = parse_bool_match(fl_src, "is_modifier", True)
+    act = from_text("is_action_key", lambda: parse_bool_match(kt_src, "is_action_key", True))
+    mod = from_text("is_modifier", lambda: parse_bool_match(fl_src, "is_modifier", True))
+    if dump is not None:
+        # canonical form: default = the majority answer, listed = the exceptions
+        d_act = ({i: ia for i, n, sn, ia, im in dump[0] if not ia}, True)
+        d_mod = ({i: im for i, n, sn, ia, im in dump[0] if im}, False)
+        def same(a, d, default_of_d):
+            if a is None:
+                return False
+            listed, default = a
+            full = {i: listed.get(i, default) for i in codes}
+            return all(full[i] == (d[0].get(i, default_of_d)) for i in codes)
+        if not same(act, d_act, True):
+            if act is not None:
+                notes.append("is_action_key: source text and evaluated function differ; using the evaluated function")
+            act = d_act
+        if not same(mod, d_mod, False):
+            if mod is not None:
+                notes.append("is_modifier: source text and evaluated function differ; using the evaluated function")
+            mod = d_mod
+    act_listed, act_default = act
+    mod_listed, mod_default = mod
     for n in list(act_listed) + list(mod_listed):
         if n not in codes:
             raise TranslateError("modifier table names unknown key " + n)
-    chars = parse_char_table(codes)
-    rows = parse_rows(codes)
+    chars = from_text("char table", lambda: parse_char_table(codes))
+    if dump is not None:
+        d_chars = [(c, sh, names[k]) for c, sh, k in dump[1] if k in names]
+        if chars is None or sorted(chars) != sorted(d_chars):
+            if chars is not None:
+                notes.append("char table: source text and evaluated map differ; using the evaluated map")
+            chars = d_chars
+    rows = from_text("rows", lambda: parse_rows(codes))
+    if dump is not None:
+        want = ["USQuertyGrave", "USQuerty1", "USQuertyQ", "USQuertyA", "USQuertyZ"]
+        d_rows = [(w, ([names[k] for k in dump[2][w]] if w in dump[2] else None)) for w in want]
+        if rows is None or rows != d_rows:
+            if rows is not None:
+                notes.append("rows: source text and evaluated map differ; using the evaluated map")
+            rows = d_rows
 
     hdr = "(* GENERATED by tools/translate.py from /repo — do not edit *)\n"
     hdr += "From Coq Require Import List NArith String.\nImport ListNotations.\nOpen Scope N_scope.\n\n"
@@ -223,7 +300,9 @@ def main():
         "rows": {name: ([codes[k] for k in keys] if keys is not None else None) for name, keys in rows},
     }
     write_if_changed(os.path.join(HERE, "build", "gen", "tables.json"), json.dumps(tables, indent=0))
-    print("translate: %d key codes, %d chars, rows ok" % (len(entries), len(chars)))
+    write_if_changed(os.path.join(HERE, "build", "gen", "translate_notes.json"), json.dumps(notes))
+    print("translate: %d key codes, %d chars, rows ok%s%s" % (len(entries), len(chars),
+          " (from the evaluated tables)" if dump is not None else " (from the source text)", "; " + "; ".join(notes) if notes else ""))
 
 
 if __name__ == "__main__":
